@@ -1208,6 +1208,10 @@ class SearchSpaceSelector:
     Raises:
       ValueError: If `length` or `index` are invalid.
     """
+    if not name:
+      # The composed names 'name[i]' would hide an empty base name from the
+      # factory's check.
+      raise ValueError('Parameter name cannot be empty.')
     if length is not None and index is not None:
       raise ValueError(
           'Only one of `length` and `index` can be specified. Got'
